@@ -16,8 +16,8 @@ Theorem C01_ngram_mask_shape :
   forall (matches : Z -> bool) (f32div f64div : Z -> Z -> Z) (f64to32 : Z -> Z) (one64 : Z) (prm : ngv_params) M X',
   Forall (fun kv => 0 <= snd kv < Z.of_nat (length (nv_cold M))) (nv_cold M) ->
   exists R, ngv_transform matches f32div f64div f64to32 one64 prm M X' = Ok R /\
-    A.nrows R = Z.of_nat (length X') /\ A.ncols R = Z.of_nat (length (nv_cold M)) /\
-    forall t, In t (A.entries R) -> 0 <= A.trow t < A.nrows R /\ 0 <= A.tcol t < A.ncols R.
+    KA.nrows R = Z.of_nat (length X') /\ KA.ncols R = Z.of_nat (length (nv_cold M)) /\
+    forall t, In t (KA.entries R) -> 0 <= KA.trow t < KA.nrows R /\ 0 <= KA.tcol t < KA.ncols R.
 Proof. exact ngv_transform_shape. Qed.
 Print Assumptions C01_ngram_mask_shape.
 
